@@ -131,7 +131,7 @@ def direct_cases(tier, seed):
 def script_verdict(s):
     def has(t):
         return any(s[i:i + len(t)] == t for i in range(len(s) - len(t) + 1))
-    if has([0x23, 0x23]):
+    if has([0x23, 0x23]) or has([0x23, 0x40]):
         return "error"
     if has([0x21, 0x21]) or has([0x7e, 0x7e]) or has([0x3f, 0x3f]):
         return "invalid"
